@@ -81,7 +81,10 @@ K_COMPONENTS = ['..', '.', 'sub', 'a', 'a.tex', 'b', 'c', 'e', 'q', 'q.tex', 's'
                 'lolat', 'lchain', 'lchain2', 'lt', 'deep', 'u', 'd', 'd.tex', 'empty', 'blink', 'ls', 'nonex',
                 'lx', 'lx.tex', 'lx2', 'ly', 'ly2', 'lz', 'lxi', 'lxa', 'n1', 'n2', 'n3', 'back', 'back2', 'back3', 'Base', 'BASE', 'lcase', 'dcase']
 K_SMALL = ['Base', 'lcase', 'dcase', 'n1', 'back', 'back2', 'back3', '..', '.', 'sub', 'a', 's', 's.tex', 'base', 'base2', 'out', 'lo', 'up', 'dout', 'dsib', 'in', 'blink', 'lt', 't', 'ls', 'loop', 'ly', 'lx2']
-K_DIRS = ['base', 'base/', 'blink', 'base/sub/..', 'base/sub', 'out/in', 'base2', 'out/base', 'out']
+K_DIRS = ['base', 'base/', 'blink', 'base/sub/..', 'base/sub', 'out/in', 'base2', 'out/base', 'out',
+          # a directory symlink followed by '..': the directory meant is the parent of the link's TARGET (what the operating system
+          # resolves), not the lexically collapsed path ('out/in/../base' is base, not out/base; 'base/dsib/../out' is out)
+          'out/in/../base', 'base/dsib/../out']
 ABS_NAMES = ['{R}/base/a.tex', '{R}/base/a', '{R}/base2/s.tex', '{R}/base2/s', '{R}/out/s', '{R}/base/lo', '{R}/base.tex',
              '{R}/base', '{R}/blink/a', '{R}/out/in/a', '{R}/base/../base2/s.tex', '{R}/base/./a', '/', '',
              '/nonexistent-pylx-c15/x.tex', '//', '{R}//base//a.tex', '{R}/base/a.tex/', 'a.tex/', 'sub/', './/a', 'a.tex/.', 'a.tex/..',
@@ -213,6 +216,7 @@ def cases(tier, rng):
     kl = [(e[1], e[2]) for e in K if e[0] == 'l']
     for D in K_DIRS:
         Dn = os.path.normpath(D)
+        Dn = {'blink': 'base', 'out/in': 'base', 'out/in/../base': 'base', 'base/dsib/../out': 'out'}.get(D, Dn)
         Dn = {'blink': 'base', 'out/in': 'base'}.get(Dn, Dn)
         for nm in rand_names(rng, K, kd, kf, kl, Dn, 150 if quick else 2500):
             yield {'lay': K, 'dir': D, 'strict': rng.random() < 0.85, 'name': nm, 'mac': rng.choice(['input', 'include'])}
